@@ -32,8 +32,21 @@ pub struct C02;
 // ---------------------------------------------------------------- rendering
 fn perm<T: Clone>(xs: &[T], r: &mut Option<Rng>) -> Vec<T> { let mut v = xs.to_vec(); if let Some(r) = r { r.shuffle(&mut v); } v }
 fn render_bgp(b: &[TP], r: &mut Option<Rng>) -> String { perm(b, r).iter().map(|t| format!("{} {} {} . ", t.s, t.p, t.o)).collect() }
+/// a permuted rendering also shuffles every maximal run of adjacent pattern blocks (basic graph patterns and GRAPH blocks):
+/// they are joined, and a join does not depend on the textual order of its operands
+fn block_order(es: &[Elem], r: &mut Option<Rng>) -> Vec<Elem> {
+    let Some(rng) = r else { return es.to_vec() };
+    let is_block = |e: &Elem| matches!(e, Elem::Bgp(_) | Elem::Graph { .. } | Elem::GraphF { .. });
+    let mut out: Vec<Elem> = vec![]; let mut i = 0;
+    while i < es.len() {
+        if is_block(&es[i]) { let mut j = i; while j < es.len() && is_block(&es[j]) { j += 1; } let mut run = es[i..j].to_vec(); if run.len() > 1 { rng.shuffle(&mut run); } out.extend(run); i = j; }
+        else { out.push(es[i].clone()); i += 1; }
+    }
+    out
+}
 fn render_elems(es: &[Elem], r: &mut Option<Rng>) -> String {
     let mut s = String::new();
+    let es = &block_order(es, r);
     for e in es {
         match e {
             Elem::Bgp(b) => s.push_str(&render_bgp(b, r)),
@@ -100,7 +113,10 @@ fn gen_group(r: &mut Rng, cfg_bits: u64, v: &Voc, depth: u32) -> Vec<Elem> {
         out.push(Elem::Filter(match r.below(4) { 0 => format!("?n > {}", k), 1 => format!("?n <= {}", k), 2 => format!("(?n + 1) >= {}", k), _ => format!("?n != {}", k) }));
     }
     if cfg_bits & 256 != 0 && depth == 0 && r.chance(1, 2) { let g = if r.chance(1, 2) { "?g".to_string() } else { format!("<http://e/g{}>", r.below(3)) }; let ka = 1 + r.usize(2); let kb = 1 + r.usize(2); out.push(Elem::Union(vec![Elem::Graph { g, bgp: gen_bgp(r, v, &vars, ka, 0) }], vec![Elem::Bgp(gen_bgp(r, v, &vars, kb, 1))])); }
-    if cfg_bits & 2 != 0 && r.chance(1, 2) { let g = if r.chance(1, 2) { "?g".to_string() } else { format!("<http://e/g{}>", r.below(3)) }; let kk = 1 + r.usize(2); let sh = r.below(2); out.push(Elem::Graph { g, bgp: gen_bgp(r, v, &vars, kk, sh) }); }
+    if cfg_bits & 2 != 0 && r.chance(1, 2) { let g = if r.chance(1, 2) { "?g".to_string() } else { format!("<http://e/g{}>", r.below(3)) }; let kk = 1 + r.usize(2); let sh = r.below(2); let bgp = gen_bgp(r, v, &vars, kk, sh);
+        // the same block once more under another graph variable / graph: look-alike sub-plans for the optimizer's memo table
+        if cfg_bits & 2048 != 0 && r.chance(1, 2) { let g2 = if g == "?g" || r.chance(1, 2) { "?h".to_string() } else { "?g".to_string() }; out.push(Elem::Graph { g: g2, bgp: bgp.clone() }); }
+        out.push(Elem::Graph { g, bgp }); }
     if cfg_bits & 4 != 0 && depth == 0 && r.chance(1, 2) { let ka = 1 + r.usize(2); let kb = 1 + r.usize(2); out.push(Elem::Union(vec![Elem::Bgp(gen_bgp(r, v, &vars, ka, 0))], vec![Elem::Bgp(gen_bgp(r, v, &vars, kb, 1))])); }
     if cfg_bits & 8 != 0 && !mv.is_empty() && r.chance(1, 2) { let x = r.pick(&mv).clone(); let f = match r.below(4) { 0 => format!("{} != {}", x, v.n(r)), 1 => format!("{} = {}", x, v.n(r)), 2 if mv.len() > 1 => format!("{} != {}", x, r.pick(&mv)), _ => format!("{} != \"v1\"", x) }; out.push(Elem::Filter(f)); }
     if cfg_bits & 16 != 0 && !mv.is_empty() && r.chance(1, 2) { let x = r.pick(&mv).clone(); out.push(Elem::Bind { expr: format!("CONCAT({}, \"-x\")", x), var: "?bound".to_string() }); }
